@@ -565,7 +565,12 @@ class Weaver:
                     edits.append((f['close'], f['close'], ins(f"{cid0}:end#{n+1}", props, clause + '\n' + ind)))
                 loops = find_loops(s, mask, f['open'], f['close'])
                 for (k,), clause in spec.get('loop', []):
-                    if k > len(loops): self.lost.append(f"{rel}: loop {k} of {qual}"); continue
+                    if k > len(loops):
+                        # the loop is gone: its invariant cannot be placed. Soft: the function-level contract decides.
+                        tg = set(props)
+                        for tm in re.finditer(r'(?m)^\s*\[((?:C\d+)(?:,C\d+)*)\]|/\*@p ((?:C\d+)(?:,C\d+)*)\*/', clause):
+                            tg |= set((tm.group(1) or tm.group(2)).split(','))
+                        self.soft_lost.append({'desc': f"{rel}: loop {k} of {qual}", 'props': sorted(tg)}); continue
                     pos = loops[k - 1][1]
                     edits.append((pos, pos, ins(f"{cid0}:loop{k}", props, '\n' + clause + '\n' + ind + '    ')))
                 for kind in ('before', 'after'):
